@@ -309,7 +309,7 @@ def correspondence(chk, drv, C):
         else:
             tol = rng.choice([1e-6, 1e-8, 1e-10, 1e-12])
             rho = rng.uniform(0.03, 0.3)
-            dt = sign * (2 * rho / lip if lip > 1e-9 else rng.uniform(0.1, 2.0))
+            dt = sign * (2 * rho / lip if lip > 1e-6 else rng.uniform(0.1, 2.0))
             if phi_kind == 'rot':
                 dt = sign * rng.uniform(0.1, 3.0)
         kcells = None
@@ -398,8 +398,17 @@ def correspondence(chk, drv, C):
             if not out['converged']:
                 chk.diff('termination: model did not converge within fuel, real code returned', case)
                 continue
-            if any(abs(Fr(nm) - Fr(tol)) <= Fr(tol) / 2 ** 30 for nm in out['norms']):
-                chk.count('discarded: a sweep norm within 2^-30 of tol')
+            val_b, pos_b = error_bound(bphi, bf, dt, B0, rmin, rmax, out['sweeps'])
+            # threshold avoidance for `norm > tol`: the norm formed in doubles differs from the exact one by rounding; the
+            # size of that difference is measured on the independent double-precision implementation
+            mn = [Fr(x) for x in out['norms']]
+            near = False
+            for k_, m_ in enumerate(mn):
+                dlt = abs(Fr(o_norms[k_]) - m_) if k_ < len(o_norms) else Fr(0)
+                if abs(m_ - Fr(tol)) <= max(Fr(tol) / 2 ** 30, 16 * dlt + Fr(64 * U * (TWOPI + rmax))):
+                    near = True
+            if near:
+                chk.count('discarded: a sweep norm within rounding of tol')
                 continue
             slack = 0.0
             if any(min(abs(Fr(x) - Fr(rmin)), abs(Fr(x) - Fr(rmax))) < MARGIN * width and Fr(x) not in (Fr(rmin), Fr(rmax)) for x in out['initr']):
@@ -411,7 +420,6 @@ def correspondence(chk, drv, C):
             elif out['sweeps'] != o_sweeps and not o_near_tol:
                 chk.diff('sweep count (model vs independent float implementation)', case, out['sweeps'], o_sweeps)
             chk.count('impl sweeps %s' % ('1' if out['sweeps'] == 1 else '2-5' if out['sweeps'] <= 5 else '6-20' if out['sweeps'] <= 20 else '>20'))
-            val_b, pos_b = error_bound(bphi, bf, dt, B0, rmin, rmax, out['sweeps'])
         for idx, nd in enumerate(out['nodes']):
             i, j = divmod(idx, len(r))
             nc_ = dict(case, node=[i, j])
